@@ -207,7 +207,7 @@ def oracle_command(case, res, base_env):
 # ------------------------------------------------------------------ generators
 
 META = list("'\"\\$` \t\n#*?[]~=%!;&|<>(){}")
-OTHER = ["a", "b", "-", "é", "˜", "\x01", "\x7f", "\r", "𝄞", "0", ":", "/", ","]
+OTHER = ["a", "b", "-", "é", "˜", "\x01", "\x7f", "\r", "𝄞", "0", ":", "/", ",", "\u3000", "\u00a0", "\x0b", "\x0c"]
 ALPHA = META + OTHER
 SMALL9 = ["a", "'", '"', "\\", " ", "\n", "#", "$", "é"]
 SPLIT7 = ["a", "'", '"', "\\", " ", "\n", "#"]
@@ -233,6 +233,8 @@ HOSTILE_NAMES = [
     "--ignored", "-", "--", "#hash", "glob*?[a]", "~", "~root", "a=b", "100%", "x;y&z|w", "<in>out",
     "(p){b}", "é𝄞", "'", "''", "\\", "\\'", "'\\''", "a\nb", " lead", "trail ", "", "˜", "\x01\x7f",
     "!", "\\\n", '"', "mod::test with spaces and 'quotes' and \"double\" $x `y` \\ # *",
+    # white space that is not ASCII space / tab / newline: shell_words does not quote it, so nothing may split on it
+    "全角\u3000スペース", "nb\u00a0sp", "em\u2003sp", "vt\x0bff\x0cx", "cr\rx", "ls\u2028x", "nel\u0085x", "\u3000",
 ]
 KEY_POOL = ["NEXTEST", "NEXTEST_EXECUTION_MODE", "NEXTEST_PROFILE", "CARGO_MANIFEST_DIR", "CARGO_PKG_NAME",
             "CARGO_PKG_VERSION", "CARGO_PKG_AUTHORS", "CARGO_PKG_RUST_VERSION", "NEXTEST_RUN_ID",
@@ -478,7 +480,7 @@ def run_harness(binary, sub, cases, env, shards=8, timeout=1200):
     out = []
     for p, data, k in procs:
         o, e = p.communicate(data, timeout=timeout)
-        lines = [l for l in o.splitlines() if l.strip()]
+        lines = [l for l in o.split("\n") if l.strip()]
         if p.returncode != 0 or len(lines) != k:
             raise RuntimeError(f"harness {sub} failed rc={p.returncode} got {len(lines)}/{k}: {e[-1500:]}")
         out.extend(json.loads(l) for l in lines)
@@ -587,7 +589,7 @@ def run_scenario(sc, root, launcher, base_env):
     summary = None
     if p.returncode == 0:
         try:
-            summary = json.loads(p.stdout.strip().splitlines()[-1])
+            summary = json.loads(p.stdout.strip().split("\n")[-1])
         except (ValueError, IndexError):
             summary = None
     records = [json.loads(l) for l in open(log)] if os.path.exists(log) else []
